@@ -10,7 +10,7 @@ import os
 import re
 
 from vf.extract import extract_item, ExtractError, REPO
-from vf.unit import Unit, arm_bounds, pull_new_struct_fields
+from vf.unit import Unit, arm_bounds, pull_new_struct_fields, unmatches_macro
 from units.run19 import PRELUDE as RUN19_PRELUDE
 
 _a = RUN19_PRELUDE.index('// ---------------------------------------------------------------- specification vocabulary')
@@ -39,6 +39,10 @@ pub trait Field: Sized + Copy {
     proof fn mul_inv_cancel(a: Self, b: Self) requires a != Self::fzero() ensures a.fmul(b.fmul(a.finv())) == b;   // a*(b*a^-1) = b
     proof fn mul_cancel(a: Self, q: Self) requires a != Self::fzero() ensures a.fmul(q).fmul(a.finv()) == q;       // (a*q)*a^-1 = q
     fn neg(self) -> (r: Self) ensures r == self.fneg();
+    /// F::ONE / F::ZERO / == on field values (R11: associated constants and PartialEq of p3_field::Field)
+    fn one_() -> (r: Self) ensures r == Self::fone();
+    fn zero_() -> (r: Self) ensures r == Self::fzero();
+    fn eq_(&self, o: &Self) -> (r: bool) ensures r == (*self == *o);
 }
 pub trait HintExecutor<F> { fn dummy(&self) -> bool; }
 pub trait NonPrimitiveExecutor<F> { fn dummy(&self) -> bool; }
@@ -273,6 +277,11 @@ def build():
         if n:
             f.body = re.sub(r'&format!\("[^"]*"\)', '""', f.body)
             f.rewrites.append(('R8', f'{n}x &format!(..) diagnostic context', '""'))
+        # field constants and comparisons a lowering shortcut may consult (R11), matches! (R6)
+        f.rewrite_re('R11', r'\bF::ONE\b', 'F::one_()', min_count=0)
+        f.rewrite_re('R11', r'\bF::ZERO\b', 'F::zero_()', min_count=0)
+        f.rewrite_re('R11', r'\*(\w+) == (F::(?:one_|zero_)\(\))', r'\1.eq_(&\2)', min_count=0)
+        unmatches_macro(f)
         fns.append(f)
         return f
 
